@@ -1411,6 +1411,44 @@ func checkDecoderRowsCleared(c *Ctx, rule string) {
 	c.Check(rule, "Result.Scan/reset-before-decode", sc.Pos(), okReset, "Scan resets the row counter and clears the scalar row before decoding (one decoder instance is reused for every log)")
 }
 
+// loopElemCollections: the slices whose elements are addressed with an
+// induction variable (counting up or down) inside a loop that `in` is part of
+// – a broader notion than loopCollections, independent of how the loop is written.
+func loopElemCollections(in ssa.Instruction) []ssa.Value {
+	fn := in.Parent()
+	var out []ssa.Value
+	inLoopWith := func(b *ssa.BasicBlock) bool {
+		if b == in.Block() {
+			r, _ := reach(siteOf(in), isInstr(in), nil)
+			return r
+		}
+		r1, _ := reach(Site{b, len(b.Instrs) - 1}, isInstr(in), nil)
+		r2, _ := reach(siteOf(in), func(x ssa.Instruction) bool { return x.Block() == b }, nil)
+		return r1 && r2
+	}
+	allInstrs(fn, func(x ssa.Instruction) {
+		ia, ok := x.(*ssa.IndexAddr)
+		if !ok {
+			return
+		}
+		idx := stripNum(ia.Index)
+		isInd := isInduction(idx)
+		if ph, isPhi := idx.(*ssa.Phi); isPhi && !isInd {
+			for _, e := range ph.Edges {
+				if b, isB := e.(*ssa.BinOp); isB && (b.Op == token.SUB || b.Op == token.ADD) && b.X == ssa.Value(ph) {
+					if _, isC := constInt(b.Y); isC {
+						isInd = true
+					}
+				}
+			}
+		}
+		if isInd && inLoopWith(ia.Block()) {
+			out = append(out, ia.X)
+		}
+	})
+	return out
+}
+
 // loopCollections: the collections ranged over by the loops that enclose `in`
 // (innermost first): for `for i := range X` / `for _, e := range X`.
 func loopCollections(in ssa.Instruction) []ssa.Value {
